@@ -55,7 +55,9 @@ def main(prop, tier, replay, only):
                 if ok:
                     violations.append(fnd)
                 else:
-                    inconclusive.append("%s: counterexample did not reproduce natively (%s)" % (qr.q.name, note))
+                    msg = "%s: counterexample(s) not confirmed natively (%s); first: %s" % (qr.q.name, note, fnd.site)
+                    if not any(m.startswith(qr.q.name + ": counterexample(s)") for m in inconclusive):
+                        inconclusive.append(msg)
 
     # ---- E1 (Kani) -----------------------------------------------------------------------------
     results = kanirun.run_all(kani_hs) if kani_hs else []
